@@ -17,6 +17,9 @@ Generated == st = "compiling" /\ C.outcome = "generated" /\ Len(C.files) > 0 /\ 
 Build == st = "written" /\ C.built /\ st' = "built" /\ UNCHANGED <<blk, ci>>
 Next == Pick \/ Rejected \/ Generated \/ Build \/ (st \in {"rejected", "built"} /\ UNCHANGED vars)
 Spec == Init /\ [][Next]_vars
+(* A configuration that was neither rejected nor generated-and-built has no transition. TLC reports only some deadlocks under      *)
+(* -continue, so the missing transition is stated as an invariant over ENABLED, which is reported for every case.                 *)
+Accepted == (st = "compiling" => ENABLED (Rejected \/ Generated)) /\ (st = "written" => ENABLED Build)
 HasFile(f) == \E k \in 1..Len(C.files) : C.files[k] = f
 OptIs(name, dflt) == IF name \in DOMAIN C.opts THEN C.opts[name] ELSE dflt
 (* the file set: a lexer always; parser files iff a parser is generated *)
